@@ -10,7 +10,8 @@ propagated in two legs - so that nothing a call leaves behind in the filter obje
 ``physics/noise.py`` builders are compared with their documented closed forms.  Families (D), (E) repeat the
 measurement update with the measured values / the filter's own inputs typed and held in every way numpy promotion
 distinguishes (ints, narrow ints, float32, scalars, 0-d arrays, lists, mixtures, real ``Observation`` objects): the
-reference is the float64 Kalman update on the same numbers.
+reference is the float64 Kalman update on the same numbers.  Family (H) asks predict() for windows other than the ordinary
+single step (0 steps = the epoch the filter already sits at, 2 and 3 steps) inside step histories on a fresh object.
 """
 from __future__ import annotations
 
@@ -68,13 +69,26 @@ RULE = (
     "float64) x measured values float64 / Python ints (all-together rows also whole floats / int32) along the fixed "
     "sequence P.Ub.P.Ua.P.U0.P.Fb.Ua.P.Fa.Ub with the result-object mirror; every product of (D), (E) is compared "
     "with the float64 Kalman reference on the same numbers with the tolerances of (A), and the estimate / innovation "
-    "must be floating-point vectors; after every operation each "
+    "must be floating-point vectors; and (H) prediction windows: predict() asked for a window of w whole steps, w in "
+    "{0 = the epoch the filter already sits at (second batch of observations with the same time stamp, or first "
+    "observations at the filter's own start epoch), 1, 2, 3 = steps skipped and caught up in one call}; per (n, F kind) "
+    "system x (tuning, P/Q/R kind triple) pair (quick: two pairs per system, all 16 pairings over the lattice; "
+    "thorough: all six tunings, each with its own triple) x (resample off/on), EVERY history window prediction . body "
+    ". window prediction . probe body on a fresh filter object, bodies = the step bodies of (C), probe bodies = "
+    "{nothing | update(no obs) | update(obs) | forecast.update(obs)} (thorough adds forecast, forecast.update(no "
+    "obs)), first window in {0, 1, long} with long = 2 or 3 alternating with n + F kind (thorough: {0, 1, 2, 3}), "
+    "second window in {0, 1, 2, 3}: quick 288 histories = 378 sequences of up to 6 operations, thorough 768 histories "
+    "= 804 sequences of up to 7 operations, walked as a prefix tree like (C); the prediction over w steps is compared "
+    "with F^w x, F^w P F^w^T + Q (sigma points centred on F^w x, residuals belonging to the stored points, time "
+    "advanced by w steps), so a zero-length window must leave (x, P + Q) and a sigma set of the CURRENT estimate for "
+    "the update(no obs) / no-redraw update / forecast that follows; after every operation each "
     "product of the real filter (pred_x, pred_p, mean_pred_y, innov_cvr, cross_cvr, kalman_gain, est_p, est_x, "
     "innovation, nis, r_matrix, sigma points, time, source, flags) is compared with a textbook Kalman filter started "
     "from the state the filter held before the operation, and the same operation is replayed on a pickled copy whose "
     "result object is applied to a mirror filter that must stay bitwise equal. non-trivial = stack of >= 2 "
     "observations, or resample on, or a sequence of >= 2 operations, or in (D), (E) any representation other than "
-    "float64 ndarrays, a history prefix already walked by (B) is judged "
+    "float64 ndarrays, or in (H) a sequence with at least one window other than 1 step; a history prefix already "
+    "walked by (B) (in (H): a sequence of ordinary single-step predictions only) is judged "
     "again but not counted again (weights: kappa defaulted or alpha < 1; sigma "
     "points: full/ill-conditioned covariance or custom root; noise builders: dt != 1 and magnitude != 1); distinct by "
     "construction (lattice points / tree nodes)."
@@ -95,6 +109,9 @@ EPS = kf.EPS
 TUNINGS_Q = [(1e-3, 2.0, None), (0.5, 2.0, 0.0), (1.0, 0.0, "3-n"), (1.0, 2.0, 1.0)]
 TUNINGS_T = TUNINGS_Q + [(0.1, 2.0, None), (0.9, 1.0, 2.5)]
 OPS = ["P", "U0", "Ua", "Ub", "Fb"]
+# prediction operations by the length of their window in whole steps of the dynamics stub ("P" = the ordinary single step;
+# the others belong to family (H), prediction windows: "P0" = predict to the epoch the filter already sits at)
+PREDICT_WINDOWS = {"P": 1, "P0": 0, "P2": 2, "P3": 3}
 ALL_COMPS = kf.compositions()
 # quick tier: the full composition sweep runs for one tuning per system (rotating with n, F kind, P kind: on a linear
 # system the products do not depend on the tuning), the remaining tunings run this core set
@@ -129,6 +146,8 @@ def items(tier, seed):
             for pk, qk, rk in _kinds(tier):
                 out.append(("lin", n, fk, pk, qk, rk, seed, tier))
     for n in range(1, 9):
+        for fk in range(4):
+            out.append(("window", n, fk, seed, tier))
         out.append(("dtype", n, seed, tier))
         out.append(("intinputs", n, seed, tier))
     out.append(("weights", seed, tier))
@@ -168,6 +187,25 @@ def bounds(tier, seed):
             "2 steps for tuning indices with (index - n - F kind) mod 3 == 1 (two of six per system), 1 step for the rest"
         ) + "; both resample modes; stacks a (forecast) / b (observed update) on even steps, swapped on odd steps, the "
         "second forecast of a step takes the update's stack; every prefix is judged step by step",
+        "prediction_window_steps": {op: PREDICT_WINDOWS[op] for op in WINDOW_OPS},
+        "prediction_window_histories": "first window . body . second window . probe body on a fresh filter; first windows "
+        + (str(["P0", "P", "P2 if (n + F kind) even else P3"]) if tier == "quick" else str(WINDOW_OPS))
+        + ", second windows " + str(WINDOW_OPS),
+        "prediction_window_bodies": [".".join(b) or "-" for b in (STEP_BODIES_Q if tier == "quick" else STEP_BODIES_T)],
+        "prediction_window_probe_bodies": [".".join(b) or "-" for b in (WINDOW_PROBES_Q if tier == "quick" else WINDOW_PROBES_T)],
+        "prediction_window_plan": dict(zip(
+            ("histories", "sequences", "longest_in_operations"),
+            (len(_window_histories(*_window_alphabet(tier, 1, 0))),)
+            + _trie_stats(_trie(_window_histories(*_window_alphabet(tier, 1, 0))), 0),
+        )),
+        "prediction_window_contexts": {
+            f"n={n},F={kf.F_KINDS[fk]}": [[list(map(str, _tunings(tier)[ti])), list(tr)] for ti, tr in _window_contexts(tier, n, fk)]
+            for n in (1, 8) for fk in (0, 3)
+        },
+        "prediction_window_contexts_note": "(tuning, [P kind, Q kind, R kind]) pairs per (n, F kind) system, shown for the "
+        "corner systems; " + ("tuning index (n + F kind + 2 j) mod 4 with triple index (n + 2 F kind + j + [n > 4]) mod 4, j = 0, 1"
+                              if tier == "quick" else "every tuning index t with triple index (n + 4 F kind + 3 t) mod 16")
+        + "; both resample modes; stacks a / b by step parity as in the step histories",
         "number_types_value_kinds": VALUE_KINDS,
         "number_types_integer_true_y_kinds": INT_ONLY_KINDS,
         "number_types_stacks": [list(c) for c in (DTYPE_COMPS_Q if tier == "quick" else DTYPE_COMPS_T)],
@@ -515,21 +553,25 @@ def _brief(m):
 
 
 # ------------------------------------------------------------------------------------------------ one-step oracles
-def check_predict(ctx, flt, pre, extra, nontrivial, sub="predict"):
-    """flt has just executed predict() from the state ``pre`` (dict of copies taken before the call)."""
+def check_predict(ctx, flt, pre, extra, nontrivial, sub="predict", steps=1):
+    """flt has just executed predict() from the state ``pre`` (dict of copies taken before the call) over a window of
+    ``steps`` whole steps of the dynamics stub (family (H): 0 = to the epoch the filter already sits at, 2, 3 = skipped
+    steps): the Kalman prediction over the window is F^steps x, F^steps P F^steps^T + Q (Q is added once per call)."""
     sysm, tol = ctx.sys, ctx.tol
     n = sysm.n
-    xm, pm, pprop = kf.kf_predict(pre["est_x"], pre["est_p"], sysm.f, sysm.q)
+    f_win = sysm.f if steps == 1 else np.linalg.matrix_power(sysm.f, steps)  # the stub applies F^steps in one product
+    t_win = steps * DT
+    xm, pm, pprop = kf.kf_predict(pre["est_x"], pre["est_p"], f_win, sysm.q)
     d = np.sqrt(np.diag(pm))
     lchol = np.linalg.cholesky(pre["est_p"])
     spread = flt.gamma * np.hstack([np.zeros((n, 1)), lchol, -lchol])
-    xmax = float(np.max(np.abs(sysm.f @ (pre["est_x"].reshape(n, 1) + spread))))  # size of the propagated sigma points
+    xmax = float(np.max(np.abs(f_win @ (pre["est_x"].reshape(n, 1) + spread))))  # size of the propagated sigma points
     floor = tol.floor(xmax)
     # numpy's cholesky reads the lower triangle only; an input est_p that is symmetric only to rounding (K S K^T is
     # not formed symmetrically) is therefore ambiguous by its own asymmetry: the band between the two readings is
     # added to the tolerance instead of choosing one of them
     low = np.tril(pre["est_p"]) + np.tril(pre["est_p"], -1).T
-    band = kf.scaled_err(kf.kf_predict(pre["est_x"], low, sysm.f, sysm.q)[1], pm, d, d)
+    band = kf.scaled_err(kf.kf_predict(pre["est_x"], low, f_win, sysm.q)[1], pm, d, d)
     # the Cholesky factor of an estimate whose ill-conditioning is not a diagonal scaling (a posterior with one well
     # measured direction) is accurate to eps * cond only: 100 eps cond(scaled est_p)
     rel_cov = 1e-9 + floor / float(np.min(d) ** 2) + 4.0 * band + 100.0 * EPS * kf.scaled_cond(0.5 * (pre["est_p"] + pre["est_p"].T))
@@ -547,26 +589,28 @@ def check_predict(ctx, flt, pre, extra, nontrivial, sub="predict"):
     ctx.case("cov_psd", extra, me >= -1e-10, nontrivial=nontrivial, field="pred_p", ratio=max(-me, 0.0) / 1e-10,
              observed=me, expected=">= -1e-10")
     # bookkeeping of predict: time advanced to the requested time, estimate untouched, flags cleared, dynamics window
-    t_ok = float(flt.time) == pre["time"] + DT
+    t_ok = float(flt.time) == pre["time"] + t_win
     ctx.case(sub + "_bookkeeping", extra, t_ok, nontrivial=nontrivial, field="time", observed=float(flt.time),
-             expected=pre["time"] + DT)
+             expected=pre["time"] + t_win)
     ctx.case(sub + "_bookkeeping", extra, _exact(flt.est_x, pre["est_x"]) and _exact(flt.est_p, pre["est_p"]),
              nontrivial=nontrivial, field="estimate_untouched")
     ctx.case(sub + "_bookkeeping", extra, flt.flags == FilterFlag.NONE, nontrivial=nontrivial, field="flags",
              observed=str(flt.flags))
     calls = flt.dynamics.calls
-    ctx.case(sub + "_bookkeeping", extra, bool(calls) and calls[-1] == (pre["time"], pre["time"] + DT),
-             nontrivial=nontrivial, field="dynamics_window", observed=calls[-1:] or None,
-             expected=[pre["time"], pre["time"] + DT])
+    if steps > 0:  # (whether a zero-length window reaches the dynamics at all is not part of the contract: not judged)
+        ctx.case(sub + "_bookkeeping", extra, bool(calls) and calls[-1] == (pre["time"], pre["time"] + t_win),
+                 nontrivial=nontrivial, field="dynamics_window", observed=calls[-1:] or None,
+                 expected=[pre["time"], pre["time"] + t_win])
     # propagated sigma points: shape, centre = propagated mean, residuals consistent with the stored points
-    sp_ok = flt.sigma_points.shape == (n, 2 * n + 1) and kf.vec_err(flt.sigma_points[:, 0], xm) <= 1e-12
-    ctx.case(sub, extra, sp_ok, nontrivial=nontrivial, field="sigma_centre", observed=_brief(flt.sigma_points[:, 0]),
-             expected=_brief(xm))
+    sp_shape = flt.sigma_points.shape == (n, 2 * n + 1)
+    sp_ok = sp_shape and kf.vec_err(flt.sigma_points[:, 0], xm) <= 1e-12
+    ctx.case(sub, extra, sp_ok, nontrivial=nontrivial, field="sigma_centre",
+             observed=_brief(flt.sigma_points[:, 0]) if sp_shape else list(flt.sigma_points.shape), expected=_brief(xm))
     res_ok = flt.sigma_x_res.shape == (n, 2 * n + 1) and _exact(
         flt.sigma_x_res, flt.sigma_points - flt.pred_x.reshape(n, 1)
     )
     ctx.case(sub, extra, res_ok, nontrivial=nontrivial, field="sigma_x_res")
-    return {"pprop": pprop, "f_l_prev": sysm.f @ lchol}
+    return {"pprop": pprop, "f_l_prev": f_win @ lchol}
 
 
 UPDATE_FIELDS_COV = ["innov_cvr", "cross_cvr", "kalman_gain", "est_p"]
@@ -793,10 +837,10 @@ def _apply_op(ctx, op, direct, mirror, orc, stacks, extra, nontrivial, *, repeat
     ``repeat``: the sequence ending here was already explored by another family of the same context: it is executed and
     judged again (it is a prefix of longer sequences) but counted neither as non-trivial nor as a new transition."""
     pre = snapshot(direct)
-    if op == "P":
-        t1 = ScenarioTime(pre["time"] + DT)
+    if op in PREDICT_WINDOWS:  # "P" = one step; family (H): "P0" / "P2" / "P3" = a window of 0 / 2 / 3 steps
+        t1 = ScenarioTime(pre["time"] + PREDICT_WINDOWS[op] * DT)
         direct.predict(t1)
-        orc = check_predict(ctx, direct, pre, extra, nontrivial)
+        orc = check_predict(ctx, direct, pre, extra, nontrivial, steps=PREDICT_WINDOWS[op])
         mirror_step(ctx, mirror, direct, "P", t1, extra, nontrivial)
     elif op == "U0":
         direct.update([])
@@ -831,7 +875,7 @@ def _guarded_op(ctx, op, parent, d2, m2, orc, stacks, extra, nontrivial, *, repe
         # already judged by cov_psd at the update).  Either-way, branch not expanded.  Anything else is a violation.
         low = np.tril(parent.est_p) + np.tril(parent.est_p, -1).T
         dd = np.sqrt(np.abs(np.diag(low)))
-        if op == "P" and kf.scaled_min_eig(low, np.where(dd > 0, dd, 1.0)) < 1e-12:
+        if op in PREDICT_WINDOWS and kf.scaled_min_eig(low, np.where(dd > 0, dd, 1.0)) < 1e-12:
             ctx.res.either_way += 1
             ctx.case("sequence", extra, True, nontrivial=False, field="predict_from_numerically_singular_estimate")
         else:
@@ -1043,6 +1087,99 @@ def _run_lin(res, item):
             # ---------------- (C) every step history of the plan, as a prefix tree rooted at the same prediction
             bodies, steps = _history_plan(tier, n, fk, pk, ti)
             _walk(ctx, direct, mirror, orc, stacks, ["P"], _trie(_histories(bodies, steps)), _depth(tier, n, fk, ti))
+
+
+# ------------------------------------------------------------------------------------------------ (H) prediction windows
+# Families (A)-(G) only ever ask predict() for the ordinary single step.  The agents ask for whatever the clock says:
+# two batches of observations that carry the same time stamp are processed one after the other (the second prediction
+# goes to the epoch the filter already sits at: a window of 0 steps, also the first prediction of a filter created at
+# the epoch of its first observations), and a target that was not propagated for some steps is caught up in one call
+# (a window of 2, 3 steps).  On the linear stub the Kalman prediction over a window of k steps is F^k x, F^k P F^k^T + Q,
+# whatever k is; in particular k = 0 gives (x, P + Q) AND a sigma-point set drawn around the estimate the filter holds
+# now, which the following update(no obs) / no-redraw update / forecast work from.  A history here is
+#     window prediction . body . window prediction . probe body
+# on a fresh filter object, walked as a prefix tree exactly like (C): every operation of every history is judged against
+# the Kalman filter started from the state the filter held (check_predict with the window's F^k; the measurement
+# oracles are the ones of (A)-(C)) and replayed through the result objects.  The first window prediction meets the
+# freshly constructed object (no sigma points yet), the second one meets whatever each body left behind (propagated
+# points of another epoch, a redrawn set, measurement blocks of either dimension, an observed / propagated estimate).
+WINDOW_OPS = ["P0", "P", "P2", "P3"]
+WINDOW_PROBES_Q = [(), ("U0",), ("U",), ("F", "U")]
+WINDOW_PROBES_T = WINDOW_PROBES_Q + [("F",), ("F", "U0")]
+
+
+def _window_long_op(n, fk):
+    """Quick tier: the long first window of a system is 2 or 3 steps, alternating with n + F kind."""
+    return "P2" if (n + fk) % 2 == 0 else "P3"
+
+
+def _window_alphabet(tier, n, fk):
+    """(first windows, step bodies, second windows, probe bodies) of the histories of one system."""
+    if tier == "quick":
+        return ("P0", "P", _window_long_op(n, fk)), tuple(STEP_BODIES_Q), tuple(WINDOW_OPS), tuple(WINDOW_PROBES_Q)
+    return tuple(WINDOW_OPS), tuple(STEP_BODIES_T), tuple(WINDOW_OPS), tuple(WINDOW_PROBES_T)
+
+
+@functools.lru_cache(maxsize=None)
+def _window_histories(firsts, bodies, seconds, probes):
+    """Every history first window . body . second window . probe body as a tuple of operations.  Stacks by the step
+    parity as in (C): forecast a / observed update b in the first step, swapped in the second."""
+    out = []
+    for w1 in firsts:
+        for body in bodies:
+            for w2 in seconds:
+                for probe in probes:
+                    out.append(tuple([w1] + _step_ops(body, 0)[1:] + [w2] + _step_ops(probe, 1)[1:]))
+    return out
+
+
+def _window_contexts(tier, n, fk):
+    """(tuning index, (P kind, Q kind, R kind)) pairs of one (n, F kind) system: nothing in a prediction window depends
+    on the tuning or the covariance kinds beyond what (A)-(C) sweep, so they rotate: quick = two pairs per system,
+    thorough = every tuning, each with its own triple of the 16-run array."""
+    kinds = _kinds(tier)
+    if tier == "quick":
+        return [((n + fk + 2 * j) % len(TUNINGS_Q), kinds[(n + 2 * fk + j + (n > 4)) % len(kinds)]) for j in range(2)]
+    return [(ti, kinds[(n + 4 * fk + 3 * ti) % len(kinds)]) for ti in range(len(TUNINGS_T))]
+
+
+def _walk_windows(ctx, direct, mirror, orc, stacks, seq, node):
+    """Depth-first walk of the prefix tree ``node`` of prediction-window histories below the sequence ``seq``."""
+    if not node:
+        return
+    blob = pickle.dumps((direct, mirror))
+    for op, child in node.items():
+        d2, m2 = pickle.loads(blob)
+        seq2 = seq + [op]
+        # a sequence whose predictions are all ordinary single steps belongs to (B) / (C): it is executed and judged
+        # again (it is a prefix of the longer ones) but counted neither as non-trivial nor as a new transition
+        repeat = all(PREDICT_WINDOWS.get(o, 1) == 1 for o in seq2)
+        extra = {"sequence": ".".join(seq2), "family": "prediction_windows", "stack_a": list(stacks["a"]),
+                 "stack_b": list(stacks["b"])}
+        orc2 = _guarded_op(ctx, op, direct, d2, m2, orc, stacks, extra, not repeat, repeat=repeat)
+        if orc2 is None:
+            continue
+        if not repeat:
+            ctx.res.states += 1
+            ctx.res.traces += 1
+            ctx.res.extra["operation_sequences"] = ctx.res.extra.get("operation_sequences", 0) + 1
+            ctx.res.extra["prediction_window_sequences"] = ctx.res.extra.get("prediction_window_sequences", 0) + 1
+        _walk_windows(ctx, d2, m2, orc2, stacks, seq2, child)
+
+
+def _run_window(res, item):
+    _, n, fk, seed, tier = item
+    stacks = _seq_stacks(n, seed)
+    trie = _trie(_window_histories(*_window_alphabet(tier, n, fk)))
+    tunings = _tunings(tier)
+    for ti, (pk, qk, rk) in _window_contexts(tier, n, fk):
+        sysm = System(n, fk, pk, qk, rk, seed)
+        for resample in (False, True):
+            ctx = Ctx(res, sysm, tunings[ti], resample, item)
+            ctx.family = "prediction_windows"
+            direct = sysm.make_filter(tunings[ti], resample)
+            mirror = sysm.make_filter(tunings[ti], resample)
+            _walk_windows(ctx, direct, mirror, {}, stacks, [], trie)
 
 
 # ------------------------------------------------------------------------------------------------ (D), (E) number types
@@ -1509,6 +1646,7 @@ def run_item(item):
         "lin": _run_lin,
         "dtype": _run_dtype,
         "intinputs": _run_intinputs,
+        "window": _run_window,
         "weights": _run_weights,
         "sigma": _run_sigma,
         "noobs_nonlinear": _run_noobs_nonlinear,
